@@ -489,6 +489,42 @@ pub fn run(cmd: &str, args: &[&str]) -> String {
             }
             outs.join(" || ")
         }
+        ("node", [hseed, jseed, md, cd, ce, alpha, beta, nt, nb, hist, pre, fen]) => {
+            // ONE call of the real analyze_recursive with arbitrary parameters against a small artifact; `pre` = table entries
+            // stored beforehand ("key:kind:move:depth:maxdepth:eval;..." with key "@" = the hash of the searched position)
+            use rand::SeedableRng;
+            use weechess_engine::searcher::verif;
+            let Some(st) = state_of(fen) else { return "badfen".into() };
+            let mut r0 = rand_chacha::ChaCha8Rng::seed_from_u64(hseed.parse().unwrap());
+            let mut artifact = verif::small_artifact(&mut r0, nt.parse().unwrap(), nb.parse().unwrap());
+            if *hist != "-" {
+                for h in hist.split('|') {
+                    if let Some(hs) = state_of(h) { verif::record_history(&mut artifact, &hs); }
+                }
+            }
+            let root = verif::artifact_hash(&artifact, &st);
+            if *pre != "-" {
+                for e in pre.split(';') {
+                    let p: Vec<&str> = e.split(':').collect();
+                    let key: u64 = if p[0] == "@" { root } else { p[0].parse().unwrap() };
+                    verif::artifact_insert(&artifact, key, (p[1].parse().unwrap(), p[2].parse().unwrap(), p[3].parse().unwrap(), p[4].parse().unwrap(), p[5].parse().unwrap()));
+                }
+            }
+            let r = verif::analyze_node(&artifact, &st, md.parse().unwrap(), cd.parse().unwrap(), ce.parse().unwrap(), alpha.parse().unwrap(), beta.parse().unwrap(), jseed.parse().unwrap());
+            let mut dump = verif::artifact_dump(&artifact);
+            dump.sort();
+            let md7: u64 = 1000000007;
+            let mut acc: u64 = 17;
+            for (k, e) in dump.iter() {
+                for x in [k % md7, e.0 as u64, e.1 as u64 % md7, e.2 as u64 % md7, e.3 as u64 % md7, (e.4 as i64 + 20000) as u64] {
+                    acc = (acc * 131 + x + 7) % md7;
+                }
+            }
+            match r {
+                Some((v, n)) => format!("V{} #{} T{}:{}", v, n, dump.len(), acc),
+                None => "interrupted".into(),
+            }
+        }
         ("msearch", [hseed, seed, depth, workers, nt, nb, hist, sched, fens]) => {
             // several workers under a forced schedule (yield-point hook): events, table checksum, schedule entries used
             use rand::SeedableRng;
